@@ -516,6 +516,10 @@ Defined(o, args, max, fl) ==
 
 PlainOps == {3,4,5,6,7,8,9,10,11,12,13,14,16,17,18,19,20,21,22,23,24,25,26,27,32,33,34,48,61}
 
+\* a symbolic atom (length only) has no content: only the unknown-operator rule can be decided on it
+RECURSIVE HasSym(_)
+HasSym(t) == IF IsPair(t) THEN HasSym(t.f) \/ HasSym(t.r) ELSE "n" \in DOMAIN t
+
 \* ChiaDialect::op.  `crypto(o, args, max, fl)` decides the cryptographic operators
 \* (it is supplied by the caller: witness-based in trace validation, Abstain otherwise).
 ChiaOp(opb, args, max, flags, ext, crypto(_, _, _, _)) ==
@@ -527,7 +531,11 @@ ChiaOp(opb, args, max, flags, ext, crypto(_, _, _, _)) ==
       ELSE IF Len(opb) # 1 THEN UnknownOperator(opb, args, max, fl)
       ELSE IF ~IsCanonicalSmall(opb) THEN UnknownOperator(opb, args, max, fl)
       ELSE LET o == opb[1]
-           IN  IF o \in PlainOps THEN Defined(o, args, max, fl)
+               known == o \in PlainOps \cup {29, 30, 49, 50, 51, 52, 53, 54, 55, 56, 57, 58, 59, 60}
+                          \/ (o = 62 /\ "ENABLE_KECCAK_OPS_OUTSIDE_GUARD" \in fl)
+                          \/ (o = 63 /\ "ENABLE_SHA256_TREE" \in fl) \/ (o \in {64, 65} /\ "ENABLE_SECP_OPS" \in fl)
+           IN  IF known /\ HasSym(args) THEN Abstain("symbolic atom passed to a defined operator")
+               ELSE IF o \in PlainOps THEN Defined(o, args, max, fl)
                ELSE IF o \in {29, 30, 49, 50, 51, 52, 53, 54, 55, 56, 57, 58, 59} THEN crypto(o, args, max, fl)
                ELSE IF o = 60
                     THEN IF "DISABLE_OP" \in fl /\ ~NewCM(fl) THEN Err("Unimplemented") ELSE OpModpow(args, max, fl)
